@@ -488,6 +488,9 @@ func genC02(r *Rng, tier string) []Case {
 			cs = append(cs, Case{"sxg_verdict_roundtrip", []Sx{exchangeInSx(c), Zi(date), Zi(0), statusKnown(c.ResponseStatus), ft, xt, st}})
 		}
 	}
+	for i := 0; i < 6; i++ { // one Signer, re-keyed between signatures
+		cs = append(cs, Case{"sxg_signer_rekey", []Sx{Zi(int64(i)), Zi(int64(i / 2))}})
+	}
 	// request URIs that ReadExchange refuses (Write must refuse them too) and odd-looking https URLs
 	for _, ver := range sxgVersions {
 		for _, uri := range []string{"http://example.com/", "/x", "", "x", "mailto:a@example.com", "ftp://example.com/f", "HTTPS://EXAMPLE.com/Up", "https:/x", "https:opaque",
@@ -645,6 +648,9 @@ func genC01(r *Rng, tier string) []Case {
 		setParam("expires", expires+1, false)
 		setParam("expires", expires-1, false)
 		setParam("expires", date+604801, false)
+		for _, life := range []int64{9223372037, 13835058056, 18446744074, 1 << 40, 1<<62 - date} { // products with 10^9 wrap int64
+			setParam("expires", date+life, false)
+		}
 		setParam("date", int64(-75), false)
 		setParam("validity-url", "https://example.com/validity.msh", false)
 		setParam("validity-url", "https://evil.test/validity.msg", false)
@@ -793,7 +799,7 @@ func genC09(r *Rng, tier string) []Case {
 	for rep := 0; rep < reps; rep++ {
 		for _, ver := range sxgVersions {
 			// time grid
-			for _, life := range []int64{0, 1, 604799, 604800, 604801, 700000, -1} {
+			for _, life := range []int64{0, 1, 604799, 604800, 604801, 700000, -1, 9223372037, 13835058056, 18446744074} { // the last three: lifetime x 10^9 wraps int64
 				x := d + life
 				one(ver, def(), d, x, "https://example.com/v", [][2]int64{{d - 1, 0}, {d - 1, 999999999}, {d, 0}, {d, 1}, {x - 1, 999999999}, {x, 0}, {x, 1}, {x + 1, 0}, {(d + x) / 2, 0}})
 			}
